@@ -12,7 +12,7 @@ from .paths import Interp, Path, Event, SIGNALS, GENEXIT
 
 class Analysis:
     def __init__(self, root: str = None, overlay: dict = None, asserts: bool = True,
-                 program: Program = None):
+                 program: Program = None, loop_bound: int = None):
         self.p = program or Program.load(root, overlay)
         self.te = TypeEngine(self.p)
         self.it = Interp(self.p, self.te, asserts=asserts)
@@ -22,6 +22,10 @@ class Analysis:
         self.rit = Interp(self.p, self.te, asserts=asserts)
         self.rit.helpers = True
         self._share(self.rit)
+        if loop_bound is not None:
+            # deeper (or shallower) unrolling of every loop, for summaries and rule paths
+            self.it.loop_bound = loop_bound
+            self.rit.loop_bound = loop_bound
         self._rule_paths = {}
 
     def _share(self, other: Interp):
